@@ -14,11 +14,15 @@ Roots1 == UNION {{Case("clean", g, t, "child", With(Priv(BaseV(g, 1), 1), t, c))
 Roots1OK == {c \in Roots1 : c.lab.t \in Terms(Props(c.lab.g))}
 RootsList == UNION {{Case("clean", g, t, "list", With(Priv(BaseV(g, 1), 1), t, ListOf(<<c, I3>>))) : c \in Level1(5)} : g \in {"Object", "Activity", "Actor", "OrderedCollection"},
                  t \in {"audience", "tag", "to", "cc"}}
+\* a LIST in a walked single-item position, and lists whose first element is an IRI
+ListInSingle == UNION {{Case("clean", g, t, "list-in-single", With(Priv(BaseV(g, 1), 1), t, ListOf(<<Leaf(7), I1, Leaf(8)>>))),
+                        Case("clean", g, t, "iri-first", With(Priv(BaseV(g, 1), 1), t, ListOf(<<I3, Leaf(7), I1, Leaf(8)>>)))}
+                       : g \in {"Object", "Activity", "Actor", "Question", "Place"}, t \in {"attachment", "icon", "image", "context", "generator", "attributedTo", "preview", "audience", "tag"}}
 ValueEmbedded == {Case("clean", g, "attachment", "by-value", With(Priv(BaseV(g, 1), 1), "attachment", ByValue(With(BaseV("Object", 60), "name", Nlv(<<LR(NilTag, "v")>>))))) : g \in {"Object", "Activity"}}
 Deep == {Case("clean", "Activity", "object", "depth3",
               With(Priv(BaseV("Activity", 1), 1), "object", With(Priv(BaseV("Activity", 2), 2), "object", With(Leaf(3), "preview", With(Leaf(4), "replies", Leaf(5))))))}
 TopList == {Case("clean", "ItemCollection", "top", "list", ListOf(<<Leaf(1), I1, Priv(BaseV("Activity", 2), 2)>>))}
-AllClean == Roots1OK \cup RootsList \cup ValueEmbedded \cup Deep
+AllClean == Roots1OK \cup RootsList \cup ListInSingle \cup ValueEmbedded \cup Deep
 GenInit == orig = NilItem /\ val = NilItem /\ phase = "gen"
 GenNext == FALSE /\ UNCHANGED vars
 ASSUME ndJsonSerialize("c11_cases.ndjson", SetToSeq(AllClean))
